@@ -6,6 +6,27 @@
   Property theorems about the model functions `interp` (`Value::interpolate`), `tokResolve`
   (`Token::resolve`), `interpL`/`interpEs`/`interpVl`/`layersStr`/`slice` (the loops that copy
   `ResolveState`), `renderedF`/`renderParamsF`.  Helper lemmas live in `Lemmas/Fuel`.
+
+  Contents
+  * `maxDepth_is_64`                                   — the documented limit;
+  * `fuel_mono`, `renderParams_fuel_mono`              — fuel never changes an answer;
+  * `depth_seen_mono`, `ref_resolution_deepens`        — the state only grows along a chain;
+  * `seen_blocks`, `depth_blocks`, `depth_bounded`     — the two stopping mechanisms;
+  * `cycle_is_loop` (+ `self_ref_is_loop`, `two_cycle_is_loop`, `cycle_never_renders`)
+                                                       — every k-cycle (k ≤ 63) of whole-value
+                                                         references is reported as `Err.loop`;
+  * `chain_resolves`                                   — acyclic chains needing ≤ 64 resolutions
+                                                         resolve (no false loop / depth error);
+  * `sibling_isolation_*`, `seq_pointwise`, `repeated_ref_ok`
+                                                       — list elements, mapping entries, layers
+                                                         and token pieces get copies of the
+                                                         incoming state (repeated use, diamonds);
+  * `interp_terminates`, `interp_settles`, `renderParams_settles`
+                                                       — rendering always comes back with a
+                                                         result or an error.
+  Whole-value reference strings are characterised by a parse hypothesis
+  (`Token.parse s = .ok (some (.ref [.lit a]))`), discharged for concrete names by kernel
+  evaluation in the examples.
 -/
 import Reclass.Lemmas.Fuel
 namespace Reclass
@@ -435,6 +456,47 @@ theorem repeated_ref_ok (n : Nat) (root : Mapping) (v : Value) (st : RState) (x 
     simp only
     rw [interpL_cons, h1]
     simp only [interpL_nil]
+
+/-! ### Rendering always comes back -/
+
+/-- **Termination of `Value::interpolate`.**  For every root, every value and every resolution
+state there is an amount of fuel at which the model returns a value or a genuine error, never
+`Err.fuel`; by `fuel_mono` that outcome is then the outcome at every larger fuel.
+
+Measure: (`maxDepth + 1 - st.depth`, size of token / value) — every `Ref` resolution hands a
+strictly deeper state to everything it calls, and nothing is resolved beyond depth 64; the
+second pass of the `ValueList` arm is handled by the size measure `Termination.sz` on
+string-free values; the parser's own fuel is sufficient (`Termination.parse_noFuel`). -/
+theorem interp_terminates (root : Mapping) (v : Value) (st : RState) :
+    ∃ n, interp n root v st ≠ .error .fuel :=
+  Termination.interp_terminates root v st
+
+/-- The outcome of `Value::interpolate` is well defined: there is one non-fuel outcome `r` that
+the model returns for all sufficiently large fuel.  The same holds for all 13 functions of the
+mutual block (`Termination.allConv`). -/
+theorem interp_settles (root : Mapping) (v : Value) (st : RState) :
+    ∃ N r, r ≠ .error .fuel ∧ ∀ n, N ≤ n → interp n root v st = r :=
+  (Termination.allConv Termination.parserTotal root _ st (Nat.le_refl _)).interp v
+
+/-- **Rendering always comes back with a result or an error**: `render_parameters` settles on a
+mapping or a genuine error for every parameter mapping. -/
+theorem renderParams_settles (m : Mapping) :
+    ∃ N r, r ≠ .error .fuel ∧ ∀ n, N ≤ n → renderParamsF n m = r := by
+  obtain ⟨N, r, hne, c⟩ := interp_settles m m.toValue {}
+  rcases r with e | ⟨v', st⟩
+  · refine ⟨N, .error e, Termination.err_ne hne, fun n hn => ?_⟩
+    simp only [renderParamsF, renderedF, c n hn]
+  · cases hfl : flat v' st with
+    | error e =>
+      refine ⟨N, .error e, Termination.err_ne_of (Termination.flat_noFuel _ _) hfl, fun n hn => ?_⟩
+      simp only [renderParamsF, renderedF, c n hn, hfl]
+    | ok v'' =>
+      refine ⟨N, (match v'' with
+        | .map es ck ok => .ok ⟨es, ck, ok⟩
+        | v => .error (.notMapping v.kind)), ?_, fun n hn => ?_⟩
+      · cases v'' <;> simp
+      · simp only [renderParamsF, renderedF, c n hn, hfl]
+        cases v'' <;> rfl
 
 /-! ### Non-vacuity and concrete instances -/
 
